@@ -129,6 +129,7 @@ func obsClient(c *client.Client) (string, error) {
 func clientCase(seed uint64, idx int) *CaseSpec {
 	name := fmt.Sprintf("client/%d/%d", seed, idx)
 	run := func(keep []int) (*Trace, error) {
+		client.BusyLoopDelay = 200 * time.Microsecond
 		r := rngFor(seed, idx)
 		t := &Trace{}
 		t.Add("begin %s", name)
@@ -403,6 +404,7 @@ func clientCase(seed uint64, idx int) *CaseSpec {
 func clientRaceCase(seed uint64, idx int) *CaseSpec {
 	name := fmt.Sprintf("client-race/%d/%d", seed, idx)
 	run := func(keep []int) (*Trace, error) {
+		client.BusyLoopDelay = 200 * time.Microsecond
 		r := rngFor(seed, idx)
 		t := &Trace{}
 		t.Add("begin %s", name)
@@ -508,7 +510,6 @@ func clientRaceCase(seed uint64, idx int) *CaseSpec {
 }
 
 func init() {
-	client.BusyLoopDelay = 200 * time.Microsecond
 	modes["client"] = &Mode{
 		Name: "client",
 		Gen: func(seed uint64, idx int, tier string) *CaseSpec {
